@@ -12,6 +12,7 @@ import JanetModel.Peg.Bounds
 import JanetModel.Peg.Entry
 import JanetModel.Peg.ReplaceLemmas
 import JanetModel.Peg.ValidateLemmas
+import JanetModel.Peg.CompileCorrect
 
 namespace JanetModel.Props.C12
 open JanetModel.Peg
@@ -243,6 +244,53 @@ theorem compiled_entry_points_eq_source (E : Env) (hE : E.lenprefixLeak = false)
 /-- non-vacuity: a hand-assembled program for `(* "a" (<- (any "b")))` validates against that source form -/
 example : validate (decode { bytecode := #[7, 2, 5, 8, 0, 0, 1, 97, 13, 11, 0, 11, 0, 4294967295, 15, 0, 1, 98], constants := #[] })
     (Spec.fetch []) 8 0 ⟨[], .seq [.str [97], .capture (.any (.str [98])) 0]⟩ = true := by decide
+
+/-! ### the compiler itself: `peg_compile1` (Peg/Compile.lean) is correct for EVERY source grammar it accepts
+
+`Compile.compile dflt p` is the executable model of `compile_peg` / `peg_compile1` / `peg_specials[]`: rule cache, keyword
+references, nested and RECURSIVE grammar tables with lexically scoped rule names, default grammar, constants table,
+reserve-then-patch emission (the check compares its bytecode, constants and `has_backref` word for word with the real
+`peg/compile` on every generated grammar).  The proof (Peg/CompileCorrect.lean) is an induction over the compiler run with the
+invariant "every cache entry and every returned rule address is either a finished header that decodes to the instruction
+`Spec.fetch` reads at the source form, with sub-rules paired again, or belongs to a rule still being compiled"; the pairs
+(address, source closure) form a simulation, which may be cyclic, and `bisim_run_eq` turns it into equality of denotations by
+induction on the fuel. -/
+
+/-- **compile_correct**: for every default grammar, every source grammar `p` the compile model accepts, every text, arguments,
+    fuel, state and position, the OPERATIONAL run of the emitted bytecode from the returned entry rule agrees with the
+    DOCUMENTED meaning of the source grammar (errors equal; match ⇒ state extended by exactly the source's captures;
+    no match ⇒ nothing kept). -/
+theorem compile_correct (E : Env) (hE : E.lenprefixLeak = false) (dflt : Spec.Scope) (p : Spec.Patt) (o : Compile.Output)
+    (hc : Compile.compile dflt p = some o) (fuel : Nat) (s : St) (pos : Nat) :
+    match Den.run E (Spec.fetch dflt) fuel ⟨[], p⟩ s pos with
+    | .error e => Op.run E (decode o.program) fuel o.entry s pos = .error e
+    | .ok none => ∃ s', Op.run E (decode o.program) fuel o.entry s pos = .ok (none, s') ∧ s.le s'
+    | .ok (some (p', d)) => Op.run E (decode o.program) fuel o.entry s pos = .ok (some p', s.extend d) := by
+  have h := op_eq_den E hE (decode o.program) fuel o.entry s pos
+  rw [compile_den_eq E dflt p o hc fuel] at h
+  exact h
+
+/-- and so all five entry points on the compile model's output are those of the source grammar -/
+theorem compile_entry_points_eq_source (E : Env) (hE : E.lenprefixLeak = false) (dflt : Spec.Scope) (p : Spec.Patt)
+    (o : Compile.Output) (hc : Compile.compile dflt p = some o) (fuel guard : Nat) :
+    opMatcher E (decode o.program) o.entry fuel guard = denMatcher E (Spec.fetch dflt) ⟨[], p⟩ fuel guard := by
+  rw [opMatcher_eq_denMatcher E hE]
+  funext start
+  simp only [denMatcher, compile_den_eq E dflt p o hc fuel]
+
+/-- the simulation behind it: every (rule address, source closure) pair logged by the compiler fetches the same instruction
+    on both sides, with the sub-rules paired again -/
+theorem compile_simulation (dflt : Spec.Scope) (p : Spec.Patt) (o : Compile.Output) (hc : Compile.compile dflt p = some o) :
+    (o.entry, (⟨[], p⟩ : Spec.Closure)) ∈ o.log ∧
+    ∀ a c, (a, c) ∈ o.log → ∃ (i : Instr Spec.Patt) (as : List Nat) (bs : List Spec.Closure),
+      decode o.program a = some (i.rebuild as) ∧ Spec.fetch dflt c = some (i.rebuild bs) ∧
+      as.length = i.kids.length ∧ bs.length = i.kids.length ∧ ∀ pr ∈ as.zip bs, (pr.1, pr.2) ∈ o.log :=
+  compile_sim dflt p o hc
+
+/-- non-vacuity: the RECURSIVE grammar `{:main (+ (* "a" :main) "b")}` is accepted; the reference compiles to the address of
+    the rule being compiled (0), the sequence is at 4, the literal "a" at 8 -/
+example : (Compile.compile [] (.grammar [("main", .choice [.seq [.str [97], .ref "main"], .str [98]])])).map
+    (fun o => (o.entry, o.code)) = some (0, [6, 2, 4, 11, 7, 2, 8, 0, 0, 1, 97, 0, 1, 98]) := by decide +kernel
 
 /-! ### replace / replace-all agree with repeated matching (closed form `replSpec`, Peg/Entry.lean) -/
 
